@@ -828,12 +828,9 @@ package fsutil
 // sub-roots are sorted by name (names carry no separator, so bytewise order is the path order)
 // with a comparison that reads the slice being sorted, and it is that sorted slice the composite
 // view walks; names with a separator and duplicate names are rejected
-//@ func SubDirFS$1
-//@   property C09
-//@   safety -index
-//@   ensures by_name: result == (dirs[i].Stat.Path < dirs[j].Stat.Path)
 //@ func SubDirFS
 //@   property C09
+//@   at call sort.Slice: less_is: arg0[i].Stat.Path < arg0[j].Stat.Path
 //@   use str_trans str_total
 //@   modifies dirs[*]
 //@   loop 0 invariant kept: forall a int, b int :: {dirs[a], dirs[b]} 0 <= a && a < b && b < len(dirs) ==> !(dirs[b].Stat.Path < dirs[a].Stat.Path)
@@ -1033,10 +1030,8 @@ package fsutil
 //@ lemma contiguity C18: forall a string, b string, c string :: specPathLess(a, b) && specPathLess(b, c) && specInside(c, a) ==> specInside(b, a)
 
 // the order FollowLinks sorts by is the protocol's path order
-//@ func FollowLinks$1
-//@   property C18
-//@   safety -index
-//@   ensures path_order: result == specPathLess(res[i], res[j])
+// (the comparison function of the sort is specified at the sort.Slice call of FollowLinks: it may be
+// any closure, in FollowLinks or in a helper)
 
 // For an input that is strictly ascending in path order the result is ascending and contains
 // no element inside another one; a root entry (".") collapses any list to "no filter"; for any
@@ -1073,6 +1068,7 @@ package fsutil
 // the OS follows links in intermediate components silently - those links would be missing)
 //@ func FollowLinks
 //@   property C18
+//@   at call sort.Slice: less_is: specPathLess(arg0[i], arg0[j])
 //@   effects GlobMatch GlobMatchRes EntryResolved FollowedToRoot Appended
 //@   loop 0 invariant each_request_resolved_component_wise: rangeindex >= 0 ==> cnt(Appended) > old(cnt(Appended)) && arg(Appended, 0) == paths[rangeindex]
 //@   posteffect FollowedToRoot(result0 == nil) when result1 == nil
